@@ -52,7 +52,8 @@ class register_map_injective:
     """every declared setup / launch field has exactly one register; no two fields, the barrier or the reserved
     status registers after the streamer launch field share an address"""
     target = "snaxc.accelerators.snax_alu.SNAXAluAccelerator.generate_acc_op"
-    shapes = [dict(acc=a) for a in ("alu", "alu_a", "alu_cb", "alu_acbt", "gemmx4", "gemmx8", "gemmx16", "xdma", "hwpe")]
+    # gemmx: also column counts that are not a multiple of 4 (the last shift register is only partly used)
+    shapes = [dict(acc=a) for a in ("alu", "alu_a", "alu_cb", "alu_acbt", "gemmx4", "gemmx8", "gemmx16", "gemmx2", "gemmx3", "gemmx6", "gemmx10", "xdma", "hwpe")]
     total = True
     compare_ret = False
 
